@@ -387,3 +387,19 @@ M("c10.feature-locations-lose-their-line-with-include", ["C10"], RUN,
   "    def feature_locations(self):\n        locations = collect_feature_locations(self.config.paths)\n        if self.config.include_re or self.config.exclude_re:\n            from behave.model_core import FileLocation as _FL\n            locations = [_FL(loc.filename) for loc in locations]\n        return locations")
 M("c19.composite-setup-skips-uncached-categories", ["C19"], "behave/tag_matcher.py",
   "    for category in list(active_tag_values.keys()):", "    for category in [c for c in data.keys() if c in active_tag_values]:")
+ATM = "behave/tag_matcher.py"
+M("c19.negative-tags-anded", "C19", ATM, "        tag_expression2 = any(negative_tags_matched)    #< LOGICAL-OR expression",
+  "        tag_expression2 = bool(negative_tags_matched) and all(negative_tags_matched)")
+M("c19.positive-tags-anded", "C19", ATM, "        tag_expression1 = any(positive_tags_matched)    #< LOGICAL-OR expression",
+  "        tag_expression1 = all(positive_tags_matched)")
+M("c19.unknown-category-never-ignored", "C19", ATM, "        if current_value is Unknown and self.ignore_unknown_categories:",
+  "        if current_value is Unknown and not self.ignore_unknown_categories:")
+M("c19.composite-matcher-needs-all-members", "C19", ATM,
+  "        for tag_matcher in self.tag_matchers:\n            if tag_matcher.should_exclude_with(tags):\n                return True\n        # -- OTHERWISE:\n        return False",
+  "        return bool(self.tag_matchers) and all(m.should_exclude_with(tags) for m in self.tag_matchers)")
+M("c19.composite-provider-last-member-wins", "C19", ATM,
+  "                # -- FOUND CATEGORY:\n                self.data[category] = value\n                break",
+  "                # -- FOUND CATEGORY:\n                self.data[category] = value")
+M("c19.groups-keep-only-last-tag-of-a-category", "C19", ATM,
+  "                if category_tag_pairs is None:\n                    category_tag_pairs = category_tag_groups[category] = []",
+  "                if True:\n                    category_tag_pairs = category_tag_groups[category] = []")
